@@ -2,7 +2,7 @@
 from .. import bb, chain as K, gen_chain as GC, gen_layout as GL
 
 NAMESPACE = "Rbp.Props.C03"
-REQUIRED = ["readVarInt_enc", "record_roundtrip", "readAt_block", "layout_independent_read", "foreign_keys_ignored", "magic_never_read", "index_values_consulted_only_through_decoded_fields", "node_version_and_tx_count_not_consulted", "index_visited_in_key_order", "index_arrangement_irrelevant"]
+REQUIRED = ["readVarInt_enc", "record_roundtrip", "readAt_block", "layout_independent_read", "foreign_keys_ignored", "magic_never_read", "index_values_consulted_only_through_decoded_fields", "node_version_and_tx_count_not_consulted", "index_visited_in_key_order", "index_arrangement_irrelevant", "varint_prefix_free", "varint_enc_injective"]
 LEAN_FILES = ["Rbp/Model/VarInt.lean", "Rbp/Model/Run.lean", "Rbp/Proofs/Record.lean", "Rbp/Proofs/Consulted.lean"]
 RULE = ("(a) hooks: real index::read_varint / BlockIndexRecord::from / BlkFile::parse_blk_index vs the Lean model on boundary values (0x7f, 0x80, 0x407f, 0x4080, 2^32, 2^64-1, overlong and overflowing encodings), "
         "records of every status combination, file names with padding widths 1..20, `+`, non-digits, overflow; (b) black-box csvdump on random layouts of one logical chain (permutations within/across 1..n files, file numbers up to 2^64-1, "
